@@ -315,7 +315,13 @@ def _gen_perturb(S, cfg, m, h):
             cur = [list(x) for x in _get_loc(m, loc)]
             j = S.randint(0, len(cur) - 1)
             if kind == 'value':
-                nv = SP.gen_value(S, cfg)
+                twins = [jj for jj, x in enumerate(cur) if isinstance(x[0], str) and x[0] in SP.CASE_TWIN]
+                if twins:
+                    # a value that differs from the old one only in letter case (and is another substance)
+                    j = S.pick(twins)
+                    nv = SP.CASE_TWIN[cur[j][0]]
+                else:
+                    nv = SP.gen_value(S, cfg)
                 if _same_value(nv, cur[j][0]):
                     continue
                 cur[j][0] = nv
